@@ -172,6 +172,17 @@ theorem code_fuel_adequate (fv : Code.Fds) (hfv : FdsPlain fv) (sig : List Char)
     Code.unmarshal fuelV sig data off le fv ≠ .error .other :=
   CostVsCode.code_fuel_gen fv hfv sig data off le fuelV hV
 
+/-- **The fuel hypothesis of the decode theorems of C01 / C02 / C03 can be discharged**: from `codeFuel sig data off` on the
+outcome of `Code.unmarshal` does not depend on the fuel - it equals the outcome at ANY fuel `g` that did not run out.
+So a theorem `depthAll vs ≤ g → Code.unmarshal g sig data off le fds = .ok (n, values)` (`C02_decode`, the decode half of
+`C01_roundtrip`) yields the same equation at every fuel `≥ |sig| + (|data| - off) + 1`, a bound that mentions only the
+input.  (Proved via fuel monotonicity of `Code.unmarshalOne`: `CostVsCode.one_mono`.) -/
+theorem code_fuel_independent (fv : Code.Fds) (hfv : FdsPlain fv) (sig : List Char) (data : List UInt8) (off : Nat)
+    (le : Bool) (g : Nat) (hg : Code.unmarshal g sig data off le fv ≠ .error .recursion)
+    (fuel : Nat) (hV : codeFuel sig data off ≤ fuel) :
+    Code.unmarshal fuel sig data off le fv = Code.unmarshal g sig data off le fv :=
+  CostVsCode.code_fuel_indep_gen fv hfv sig data off le g hg fuel hV
+
 /-- **`result_size_bounded` for the value model**: whatever `Code.unmarshal` returns at that fuel, the Python objects in
 it (`nodesList`: every list, dict, key, value, scalar) number at most `stepBound sig data off =
 |sig| + (max |sig| 255 + 2) * (|data| - off) + 1` - the decoded value is linear in the data length. -/
@@ -196,6 +207,14 @@ example : (unmarshal genTables true (some []) (fuelFor ['(', 'a', 'y', ')'] [2, 
         (some []) with
      | .ok (n, vs) => n == 6 && vs.length == 1 && nodesList vs == 4
      | .error _ => false) = true := by decide +kernel
+
+/-- `code_fuel_independent` applies: fuel 3 is enough for `(ay)`, far below `codeFuel = 11`. -/
+example : (match Code.unmarshal 3 ['(', 'a', 'y', ')'] [2, 0, 0, 0, 7, 9] 0 true (some []) with
+     | .error e => e != .recursion
+     | .ok _ => true) = true ∧
+    (match Code.unmarshal 2 ['(', 'a', 'y', ')'] [2, 0, 0, 0, 7, 9] 0 true (some []) with
+     | .error e => e == .recursion
+     | .ok _ => false) = true := by decide +kernel
 
 /-- ... and on a hostile input (variant carrying the unbalanced signature `(`): `TypeError` in both. -/
 example : (unmarshal genTables true (some []) (fuelFor ['v'] [1, 40, 0, 0]) ['v'] [1, 40, 0, 0] 0 true).st = .err .type ∧
@@ -232,4 +251,5 @@ end Txdbus.C05
 #print axioms Txdbus.C05.cost_agrees_with_code
 #print axioms Txdbus.C05.cost_simulates_code
 #print axioms Txdbus.C05.code_fuel_adequate
+#print axioms Txdbus.C05.code_fuel_independent
 #print axioms Txdbus.C05.code_result_bounded
